@@ -214,7 +214,7 @@ Vecs == SetToSeq({{[ops |-> o, src |-> s, exp |-> Run(o, s)] : o \\in {{x \\in O
                         break
         # a long history: a value handed out more than a thousand requests ago is still taken
         if len(rep.violations) < 30:
-            nlong = 1100
+            nlong = 9000          # (more than any plausible "window" of remembered identifiers: 1024, 4096, 8192)
             vals = [bytes([0x0C]) + i.to_bytes(3, "big") for i in range(2 * nlong + 4)]
             src.script = list(vals[:2 * nlong]) + [vals[0], vals[2 * nlong], vals[1], vals[2 * nlong + 1]]
             src.draws = 0
